@@ -59,7 +59,7 @@ int main(int argc, char **argv){
     size_t done = vf::parallel_units(W.size(), (int) A.geti("--workers", 8), [&](size_t ui){
         const WU &u = W[ui]; vx::Stats S; std::map<std::string,long> oc; int si = u.si; g_nviol = 0; g_lat = u.lat;
         auto on_exec = [&](const vx::Result &x, const std::vector<int> &p){ check_exec(si, x, p, oc); };
-        if (u.whole) vx::explore(std::vector<int>(), 0, lbound, [&]{ return body(si); }, on_exec, S, 120.0);
+        if (u.whole) vx::explore(std::vector<int>(), 0, (si >= SC_LAT0 + 2) ? 0 : lbound, [&]{ return body(si); }, on_exec, S, 120.0); // the last two latency scenarios: default schedule only
         else if (u.root){ vx::Result x = vx::run(std::vector<int>(), [&]{ return body(si); }, 120.0); S.execs++; S.points += (long) x.pts.size(); on_exec(x, std::vector<int>()); }
         else vx::explore(u.prefix, 1, sbound(si), [&]{ return body(si); }, on_exec, S, 120.0);
         for(auto &p : oc) vf::emit(vf::J().s("t","outcome").s("key", std::string(SC[si].name) + " | " + p.first).i("n", p.second));
